@@ -42,6 +42,7 @@ class Engine:
     self._installed = False
     self.name = name
     self.enabled = True
+    self.inline_action = None
 
   # -------------------------------------------------------------- install
   def _walk(self, code):
@@ -95,6 +96,11 @@ class Engine:
         fire = True
     if fire:
       self.paused.set()
+      if self.inline_action is not None:
+        # the action runs on the paused thread itself; what it raises is
+        # raised at this line of the monitored code
+        self.inline_action()
+        return
       self.resume.wait(self.max_hold_s)
       return
     if self.yield_prob:
